@@ -26,9 +26,13 @@ ASSUMPTIONS = ["Option values are non-negative integers / booleans when packed"]
 
 def run(repo: Repo, rep, tier: str):
     disjointness(repo, rep, "C11")
+    option_aliases(repo, rep, "C11")
     pack_unpack(repo, rep, "C11", "R2")
     record_length(repo, rep, "C11")
     descriptor_algebra(repo, rep, "C11")
+    # the Option descriptor keeps no per-class memory of values (exclusivity and callbacks are decided per instance)
+    from . import c17
+    c17.descriptor_self_state(repo, rep, "C11", "R4s", only=("Option",))
     spec_bounds(repo, rep, "C11")
 
 
@@ -46,6 +50,31 @@ def _int(o: OptDesc, k: str) -> Optional[int]:
     if isinstance(v, bool):
         return int(v)
     return v if isinstance(v, int) else None
+
+
+def option_aliases(repo: Repo, rep, P: str):
+    """A class-level `alias = Base.option` puts the same Option object under a second name: ModuleMeta collects it as a
+    second option on the same byte/bit (and the constructor applies the alias' default over the real value)."""
+    n = 0
+    for ci, opts in option_classes(repo):
+        names = {o.name for o in opts}
+        try:
+            mro = repo.mro(ci)
+        except AnchorMissing:
+            mro = [ci]
+        for k in mro:
+            for name, val in k.assigns.items():
+                if not isinstance(val, (ast.Attribute, ast.Name)) or name in names and norm(val).split(".")[-1] == name:
+                    continue
+                n += 1
+                ref = norm(val).split(".")[-1]
+                if ref in names and ref != name:
+                    rep.violation(f"{P}.R1", f"{k.file.rel}:{k.qualname}.{name}", f"{name} = {norm(val)}",
+                                  f"`{name}` is a second name for option `{ref}`: the class then has two options on one bit of the options "
+                                  "record, and a value given for one is overwritten by the default of the other",
+                                  f"{k.file.rel}:{k.assign_stmts[name].lineno}" if name in getattr(k, "assign_stmts", {}) else k.file.rel)
+    rep.instances["class_level_name_bindings_scanned"] = n
+    rep.ok(f"{P}.R1", "rv/modules/**", f"{n} class-level name bindings", "no option is bound under a second name")
 
 
 # ------------------------------------------------------------------------------------ R1
@@ -87,8 +116,112 @@ class _Inst(ast.NodeTransformer):
 
     def visit_Attribute(self, node):
         if isinstance(node.value, ast.Name) and node.value.id == self.var and node.attr in self.consts:
-            return ast.copy_location(ast.Constant(value=self.consts[node.attr]), node)
+            v = self.consts[node.attr]
+            if isinstance(v, (list, tuple)):
+                return ast.copy_location(ast.List(elts=[ast.Constant(value=x) for x in v], ctx=ast.Load()), node)
+            return ast.copy_location(ast.Constant(value=v), node)
         return self.generic_visit(node)
+
+
+class _Rename(ast.NodeTransformer):
+    def __init__(self, mapping: Dict[str, ast.expr]):
+        self.mapping = mapping
+
+    def visit_Name(self, node):
+        if node.id in self.mapping:
+            new = copy.deepcopy(self.mapping[node.id])
+            if isinstance(new, ast.Name):
+                new.ctx = node.ctx
+            return ast.copy_location(new, node)
+        return node
+
+
+def _opt_consts(o: OptDesc) -> Dict[str, Any]:
+    d = {k: o.get(k) for k in ("name", "byte", "bit", "size", "min", "max")}
+    d["inverted"] = bool(o.get("inverted", False))
+    d["exclusive_of"] = list(o.get("exclusive_of") or [])
+    return d
+
+
+_CONST_NODES = (ast.Constant, ast.Set, ast.List, ast.Tuple, ast.Compare, ast.BoolOp, ast.UnaryOp, ast.And, ast.Or, ast.Not,
+                ast.In, ast.NotIn, ast.Is, ast.IsNot, ast.Eq, ast.NotEq, ast.Lt, ast.LtE, ast.Gt, ast.GtE, ast.Load, ast.USub)
+
+
+def _const_test(repo: Repo, e: ast.expr):
+    try:
+        return repo.fold(e)
+    except NotConst:
+        pass
+    if all(isinstance(n, _CONST_NODES) for n in ast.walk(e)):
+        expr = ast.Expression(body=copy.deepcopy(e))
+        ast.fix_missing_locations(expr)
+        return eval(compile(expr, "<const>", "eval"), {"__builtins__": {}}, {})      # literals and comparison operators only
+    raise NotConst(norm(e))
+
+
+def _simplify(repo: Repo, stmts: List[ast.stmt], notes: List[str]) -> List[ast.stmt]:
+    """Fold constant branches, unroll loops over literal lists, drop change-hook plumbing (getattr/callable/callback)."""
+    out: List[ast.stmt] = []
+    hooks = set()
+    for st in stmts:
+        if isinstance(st, ast.If):
+            if isinstance(st.test, ast.Call) and norm(st.test.func) == "callable":
+                notes.append("change hook not followed: " + norm(st.test))
+                continue
+            try:
+                v = _const_test(repo, st.test)
+                out += _simplify(repo, st.body if v else st.orelse, notes)
+            except NotConst:
+                new = copy.copy(st)
+                new.body = _simplify(repo, st.body, notes) or [ast.Pass()]
+                new.orelse = _simplify(repo, st.orelse, notes)
+                out.append(new)
+        elif isinstance(st, ast.For) and isinstance(st.iter, (ast.List, ast.Tuple)) and isinstance(st.target, ast.Name) \
+                and all(isinstance(x, ast.Constant) for x in st.iter.elts):
+            for x in st.iter.elts:
+                body = [_Rename({st.target.id: x}).visit(copy.deepcopy(b)) for b in st.body]
+                out += _simplify(repo, body, notes)
+        elif isinstance(st, ast.Assign) and isinstance(st.value, ast.Call) and norm(st.value.func) == "getattr" \
+                and isinstance(st.targets[0], ast.Name):
+            hooks.add(st.targets[0].id)
+            continue
+        elif isinstance(st, ast.Pass):
+            continue
+        else:
+            out.append(st)
+    return out
+
+
+def _expand_descriptor_sets(repo: Repo, stmts: List[ast.stmt], consts: Dict[str, Any], recv: str = "self") -> List[ast.stmt]:
+    """`setattr(self, <this option's name>, X)` goes through Option.__set__: inline that method for this option."""
+    opt = repo.cls("Option", module="rv.option")
+    setfn = opt.methods.get("__set__")
+    out: List[ast.stmt] = []
+    for st in stmts:
+        if isinstance(st, ast.If):
+            new = copy.copy(st)
+            new.body = _expand_descriptor_sets(repo, st.body, consts, recv)
+            new.orelse = _expand_descriptor_sets(repo, st.orelse, consts, recv)
+            out.append(new)
+            continue
+        call = st.value if isinstance(st, ast.Expr) else None
+        if isinstance(call, ast.Call) and norm(call.func) == "setattr" and len(call.args) == 3 and norm(call.args[0]) == recv \
+                and isinstance(call.args[1], ast.Constant) and call.args[1].value == consts["name"]:
+            if setfn is None:
+                raise Unsupported("Option.__set__ not found")
+            ps = [a.arg for a in setfn.args.args]
+            body = [_Inst(ps[0], consts).visit(copy.deepcopy(b)) for b in setfn.body
+                    if not (isinstance(b, ast.Expr) and isinstance(b.value, ast.Constant))]
+            ren = _Rename({ps[1]: ast.Name(id=recv, ctx=ast.Load()), ps[2]: ast.Name(id="__set_value", ctx=ast.Load())})
+            body = [ren.visit(b) for b in body]
+            first = ast.Assign(targets=[ast.Name(id="__set_value", ctx=ast.Store())], value=copy.deepcopy(call.args[2]))
+            for b in [first] + body:
+                ast.copy_location(b, st)
+                ast.fix_missing_locations(b)
+            out += [first] + body
+        else:
+            out.append(st)
+    return out
 
 
 def _static_flatten(repo: Repo, stmts: List[ast.stmt]) -> List[ast.stmt]:
@@ -112,6 +245,23 @@ def _loop_over_options(fn: ast.FunctionDef) -> Optional[ast.For]:
     return None
 
 
+def _loops_over_options(fn: ast.FunctionDef) -> List[ast.For]:
+    return [st for st in fn.body if isinstance(st, ast.For) and norm(st.iter) == "self.options.values()" and isinstance(st.target, ast.Name)]
+
+
+def _bytemap_zero_init(repo: Repo, wfn: ast.FunctionDef, wloop: ast.For) -> bool:
+    """Is `bytemap` all zeros when the writer's loop starts?  (`bytemap = [0] * N` and nothing else before the loop.)"""
+    pre = [st for st in wfn.body if st.lineno < wloop.lineno]
+    touching = [st for st in pre if any(isinstance(n, ast.Name) and n.id == "bytemap" for n in ast.walk(st))]
+    if len(touching) != 1 or not isinstance(touching[0], ast.Assign):
+        return False
+    try:
+        v = repo.fold(touching[0].value)
+    except NotConst:
+        return False
+    return isinstance(v, (list, tuple, bytes)) and len(v) >= 64 and all(x == 0 for x in v)
+
+
 def pack_unpack(repo: Repo, rep, P: str, rule: str):
     mod = repo.cls("Module", module="rv.modules.module")
     wfn = repo.own_method(mod, "options_chunks")
@@ -126,15 +276,17 @@ def pack_unpack(repo: Repo, rep, P: str, rule: str):
     n_inst = 0
     for ci, opts in option_classes(repo):
         con = f"{rel}:Module.options_chunks[{ci.name}]"
-        env: Dict[str, BV] = {f"bytemap[{i}]": BV.const(0) for i in range(64)}
+        zero_init = _bytemap_zero_init(repo, wfn, wloop)
+        env: Dict[str, BV] = {f"bytemap[{i}]": (BV.const(0) if zero_init else BV.term(f"initial_bytemap[{i}]", 8)) for i in range(64)}
         ev = BitEval(repo, mod, env)
         try:
-            for o in opts:
-                consts = {k: o.get(k) for k in ("name", "byte", "bit", "size")}
-                body = [_Inst(wloop.target.id, consts).visit(copy.deepcopy(s)) for s in wloop.body]
-                for s in body:
-                    ast.fix_missing_locations(s)
-                ev.run(_static_flatten(repo, body))
+            for lp in _loops_over_options(wfn):
+                for o in opts:
+                    consts = _opt_consts(o)
+                    body = [_Inst(lp.target.id, consts).visit(copy.deepcopy(s)) for s in lp.body]
+                    for s in body:
+                        ast.fix_missing_locations(s)
+                    ev.run(_simplify(repo, body, []))
         except Unsupported as e:
             rep.inconclusive(f"{P}.{rule}", con, "", f"writer loop not evaluable: {e}", f"{rel}:{wloop.lineno}")
             continue
@@ -147,12 +299,15 @@ def pack_unpack(repo: Repo, rep, P: str, rule: str):
         renv: Dict[str, BV] = {f"bytemap[{i}]": written[i] for i in range(64)}
         ev2 = BitEval(repo, mod, renv)
         try:
-            for o in opts:
-                consts = {k: o.get(k) for k in ("name", "byte", "bit", "size")}
-                body = [_Inst(rloop.target.id, consts).visit(copy.deepcopy(s)) for s in rloop.body]
-                for s in body:
-                    ast.fix_missing_locations(s)
-                ev2.run(_static_flatten(repo, body))
+            notes: List[str] = []
+            for lp in _loops_over_options(rfn):
+                for o in opts:
+                    consts = _opt_consts(o)
+                    body = [_Inst(lp.target.id, consts).visit(copy.deepcopy(s)) for s in lp.body]
+                    body = _expand_descriptor_sets(repo, body, consts)
+                    for s in body:
+                        ast.fix_missing_locations(s)
+                    ev2.run(_simplify(repo, body, notes))
         except Unsupported as e:
             rep.inconclusive(f"{P}.{rule}", f"{rel}:Module.load_options[{ci.name}]", "", f"reader loop not evaluable: {e}", f"{rel}:{rloop.lineno}")
             continue
@@ -166,6 +321,21 @@ def pack_unpack(repo: Repo, rep, P: str, rule: str):
                 rep.violation(f"{P}.{rule}", f"{rel}:Module.load_options", text, "the reader never stores this option", f"{rel}:{rloop.lineno}")
                 continue
             lb = low_bits_of_single_term(got)
+            if lb is not None and o.get("min") is not None and lb[0] == f"clamp({o.name},{o.get('min')},{o.get('max')})":
+                lb = (o.name, max(lb[1], size or 0))        # clamped into the option's own declared bounds: identity on its domain
+            partners = set(o.get("exclusive_of") or [])
+            if (lb is None or lb[0] != o.name) and partners and o.name in got.deps() and got.deps() - {o.name} <= partners \
+                    and any(bits.is_top(l) for l in got.lanes):
+                rep.inconclusive(f"{P}.{rule}", f"{rel}:Module.load_options", text,
+                                 f"read-back of `{o.name}` depends on its exclusive partner(s) {sorted(partners)}; equal to the stored bit only "
+                                 "for files in which the pair is not both on (not decided)", f"{rel}:{rloop.lineno}")
+                continue
+            if any(d.startswith("initial_bytemap[") for d in got.deps()):
+                rep.violation(f"{P}.{rule}", f"{rel}:Module.options_chunks", text,
+                              f"the options record is not built from zeros: the byte of `{o.name}` starts from other data and the current "
+                              "value is only OR-ed in, so a bit that was set there can never be cleared (after load the option reads back as "
+                              f"{got.show(4)})", f"{rel}:{wloop.lineno}")
+                continue
             if lb is None or lb[0] != o.name:
                 others = sorted(got.deps() - {o.name})
                 rep.violation(f"{P}.{rule}", f"{rel}:Module.load_options", text,
@@ -188,21 +358,59 @@ def record_length(repo: Repo, rep, P: str):
     wfn = repo.own_method(mod, "options_chunks")
     rfn = repo.own_method(mod, "load_options")
     rel = mod.file.rel
-    ws, rs = norm(wfn), norm(rfn)
-    if "bytes = max(bytes, option.byte + 1)" in ws and "pack('B' * bytes, *bytemap[:bytes])" in ws and "bytemap = [0] * 64" in ws:
-        rep.ok(f"{P}.R3", f"{rel}:Module.options_chunks", "bytes = max(bytes, option.byte + 1); pack('B' * bytes, *bytemap[:bytes])",
-               "the record covers the highest option byte")
-    else:
-        rep.violation(f"{P}.R3", f"{rel}:Module.options_chunks", ws[:240],
+    from .. import alg, packed
+    wcon, rcon = f"{rel}:Module.options_chunks", f"{rel}:Module.load_options"
+    wloop = _loop_over_options(wfn)
+    ovar = wloop.target.id if wloop is not None else "option"
+    # (a) the record length: L = max(L, option.byte + 1) inside the loop, L = 0 before it
+    length_var = None
+    verdict = None
+    for n in (ast.walk(wloop) if wloop is not None else []):
+        if isinstance(n, ast.Assign) and len(n.targets) == 1 and isinstance(n.targets[0], ast.Name) and isinstance(n.value, ast.Call) \
+                and norm(n.value.func) == "max" and len(n.value.args) == 2:
+            v = n.targets[0].id
+            others = [a for a in n.value.args if norm(a) != v]
+            if len(others) == 1 and any(norm(a) == v for a in n.value.args):
+                length_var = v
+                try:
+                    p = alg.to_poly(others[0], lambda e: alg.Poly.sym("byte") if norm(e) == f"{ovar}.byte" else None)
+                    verdict = (p == alg.Poly.sym("byte") + 1, norm(n))
+                except alg.NotAlgebraic:
+                    verdict = (None, norm(n))
+    if length_var is None or verdict is None or verdict[0] is None:
+        rep.inconclusive(f"{P}.R3", wcon, verdict[1] if verdict else "", "computation of the record length not recognised", f"{rel}:{wfn.lineno}")
+    elif not verdict[0]:
+        rep.violation(f"{P}.R3", wcon, verdict[1],
                       "the options record must be max(option.byte) + 1 bytes long (highest option byte included)", f"{rel}:{wfn.lineno}")
-    if "while len(bytemap) < 64:" in rs and "bytemap.append(0)" in rs and "bytemap = list(chunk.chdt)" in rs:
-        rep.ok(f"{P}.R3", f"{rel}:Module.load_options", "pad to 64 bytes", "short records read as zeros")
     else:
-        rep.violation(f"{P}.R3", f"{rel}:Module.load_options", rs[:200], "the reader must pad the options record to 64 bytes", f"{rel}:{rfn.lineno}")
-    if "yield (b'CHNM', pack('<I', self.options_chnm))" in ws:
-        rep.ok(f"{P}.R3", f"{rel}:Module.options_chunks", "CHNM = options_chnm", nontrivial=False)
+        init = [n for n in wfn.body if isinstance(n, ast.Assign) and norm(n.targets[0]) == length_var]
+        ok0 = bool(init) and isinstance(init[0].value, ast.Constant) and init[0].value.value == 0
+        payload = packed.find_yield(wfn, b"CHDT")
+        ptxt = norm(payload) if payload is not None else ""
+        uses = payload is not None and any(isinstance(x, ast.Subscript) and isinstance(x.slice, ast.Slice) and x.slice.lower is None
+                                           and x.slice.upper is not None and norm(x.slice.upper) == length_var for x in ast.walk(payload))
+        if ok0 and uses:
+            rep.ok(f"{P}.R3", wcon, f"{verdict[1]}; CHDT = {ptxt}", "the record covers the highest option byte")
+        elif payload is None:
+            rep.violation(f"{P}.R3", wcon, "yield b'CHDT', ...", "the options record is no longer written", f"{rel}:{wfn.lineno}")
+        else:
+            rep.inconclusive(f"{P}.R3", wcon, f"{length_var} init {norm(init[0]) if init else '?'}; CHDT = {ptxt}",
+                             "the written slice is not bytemap[:length] with length starting at 0", f"{rel}:{wfn.lineno}")
+    # (b) reader pads short records
+    rs = norm(rfn)
+    padded = ("while len(bytemap) < 64:" in rs and "bytemap.append(0)" in rs) or ".ljust(64" in rs or "[0] * (64 - len(" in rs
+    if padded:
+        rep.ok(f"{P}.R3", rcon, "pad to 64 bytes", "short records read as zeros")
     else:
-        rep.violation(f"{P}.R3", f"{rel}:Module.options_chunks", ws[:160], "options must be written under options_chnm", f"{rel}:{wfn.lineno}")
+        rep.inconclusive(f"{P}.R3", rcon, rs[:160], "padding of short option records to 64 bytes not recognised", f"{rel}:{rfn.lineno}")
+    # (c) chunk number
+    cp = packed.find_yield(wfn, b"CHNM")
+    if cp is not None:
+        cp = packed.subst_locals(wfn, cp)
+    if cp is not None and isinstance(cp, ast.Call) and len(cp.args) == 2 and norm(cp.args[1]) == "self.options_chnm":
+        rep.ok(f"{P}.R3", wcon, "CHNM = options_chnm", nontrivial=False)
+    else:
+        rep.violation(f"{P}.R3", wcon, norm(cp) if cp is not None else "no CHNM", "options must be written under options_chnm", f"{rel}:{wfn.lineno}")
     for ci, opts in option_classes(repo):
         con = f"{ci.file.rel}:{ci.qualname}"
         try:
